@@ -189,7 +189,7 @@ inline void dump_path(std::ostream& os, const std::string& scn, const std::vecto
   }
   for (auto& d : c.taken)
     os << "d " << (d.rel == REL_LT ? "lt" : "eq") << " " << d.a << " " << d.b << " "
-       << (d.val ? 1 : 0) << " " << (d.is_const ? 1 : 0) << "\n";
+       << (d.val ? 1 : 0) << " " << d.is_const << "\n";
   for (auto& r : rand_records()) os << "r " << r.var << " " << r.lo << " " << r.hi << "\n";
 #ifdef VS_STUB_LARGE_INVERSE
   for (auto& r : inv_records()) {
@@ -228,6 +228,7 @@ inline int harness_main(int argc, char** argv) {
   }
   long max_paths = 20000;
   if (const char* e = std::getenv("VS_MAX_PATHS")) max_paths = std::atol(e);
+  if (const char* e = std::getenv("VS_AUTO_VALID")) ctx().auto_valid = (std::atoi(e) != 0);
   for (int ai = 1; ai < argc; ++ai) {
     std::string want = argv[ai];
     const Scenario* sc = nullptr;
